@@ -966,6 +966,19 @@ def rule_D9(repo: Repo) -> RuleResult:
                 continue
             v = st.value
             if isinstance(v, ast.Constant) and v.value is None:
+                # the selection is dropped: only after a slice has been applied to keys and values (D8 checks that arm), or as
+                # the initial value of a local that is assigned in every arm that follows
+                from .rules_e import _enclosing_tests
+                tests = [norm(t) for t in _enclosing_tests(f, st)]
+                in_slice_arm = any("isinstance(mask, slice)" in t for t in tests)
+                unconditional = not tests
+                if in_slice_arm or unconditional:
+                    continue
+                n += 1
+                res.bad(f, st, f"{norm(st)} under {tests[-1][:60]}",
+                        "the row selection is discarded under a condition: the kernel then runs over ALL rows in row order, which equals "
+                        "the selection only if it is the identity (positions of the same length may repeat, skip or reorder rows; a "
+                        "boolean mask of full length may be False somewhere)")
                 continue
             if isinstance(v, ast.Name) and v.id in ("mask", "indexer"):
                 n += 1
